@@ -16,12 +16,7 @@ struct MessageCursor {
 impl MessageCursor {
     fn new(message: Message) -> Option<Self> {
         match message {
-            Message::Text(value) => {
-                Some(MessageCursor {
-                    data: value.into_bytes(),
-                    index: 0
-                })
-            }
+            // MQTT over websockets travels in binary messages only; anything else contributes nothing to the byte stream
             Message::Binary(value) => {
                 Some(MessageCursor {
                     data: value,
